@@ -270,6 +270,29 @@ def c11_scenarios(tier, seed):
     return out
 
 
+def c09_window_scenarios(tier, seed):
+    """unique-graph selection with a time buffer: traces before / after / straddling the buffered window next to
+    same-shaped traces inside it (the candidates are the roots of the traces that have a span starting or ending inside
+    the window - the root itself may lie outside)"""
+    rnd = random.Random(repr(("c09w", seed)))
+    T = c11_templates()
+    keys = ["complete", "early", "late", "straddle_out", "straddle_in", "edge", "names"]
+    # same-shaped companions: a copy of a template under another trace id, shifted inside the window
+    def copy(k, tag, dt=0):
+        return [dict(s, eid=tag + s["eid"], job=tag + s["job"], par=(tag + s["par"]) if s["par"] != NOPAR else NOPAR,
+                     s=min(10, s["s"] + dt), e=min(10, s["e"] + dt)) for s in T[k]]
+    out = []
+    for n in (2, 3):
+        for combo in itertools.combinations(keys, n):
+            if tier == "quick" and n == 3 and rnd.random() < 0.5:
+                continue
+            for buf in (1, 2):
+                lists = [T[k] for k in combo] + [copy(combo[0], "x", 0), copy(combo[-1], "y", 3 if combo[-1] == "early" else 0)]
+                out.append({"B": rnd.choice((1, 2, 3, BIG)), "buf": buf, "combo": list(combo),
+                            "runs": [{"ing": True, "ug": True, "spans": interleave(rnd, lists)}]})
+    return out
+
+
 def twin_of(scn, lines):
     """the same scenario without the spans of traces that the (single) run did not output"""
     kept = set()
